@@ -14,7 +14,7 @@ from common import *
 
 FAMILY = "grp"
 PENDING_FINDINGS = os.path.join(VERIF, "pending_repo_patches", "C16_findings.json")
-QUIRK_NAMES = ["startFix", "noackFix", "rangeFix", "histFix", "redeliverFix", "filterFix", "multiFix", "nameFix", "maxIdFix"]
+QUIRK_NAMES = ["startFix", "noackFix", "rangeFix", "histFix", "redeliverFix", "filterFix", "multiFix", "nameFix", "maxIdFix", "forceFix", "countZeroFix", "createParseFix", "boundFix"]
 MAXID = "18446744073709551615-18446744073709551615"
 BINARY = (100, 101)          # the two distinct non-UTF-8 names g\\xff / g\\xfe (c\\xff / c\\xfe); 199 = their lossy image
 
@@ -90,6 +90,31 @@ def detect_quirks():
         q["multiFix"] = first_read >= 0 and "get_consumer_group(" in xr[:first_read]
         # repaired form: an explicit id equal to the marker is told apart from `>`
         q["maxIdFix"] = bool(re.search(r'after_id\s*==\s*StreamId::max\(\)\s*&&\s*id_str\s*!=\s*">"', xr))
+        q["countZeroFix"] = bool(re.search(r"count\s*==\s*Some\(0\)", xr))
+    if xr is None:
+        q["countZeroFix"] = False
+    cm = body(cg, r"pub\s+fn\s+claim_messages\s*\([^{]*\{")
+    if cm is None:
+        problems.append("ConsumerGroup::claim_messages not found")
+        q["forceFix"] = False
+    else:
+        # repaired form: the idle test is not guarded by `!force`, and a missing pending entry can be created (add_entry)
+        q["forceFix"] = not re.search(r"if\s+!\s*force\b", cm) and "add_entry(" in cm
+    xc = body(hc, r"fn\s+handle_xgroup_create\s*\([^{]*\{")
+    if xc is None:
+        problems.append("handle_xgroup_create not found")
+        q["createParseFix"] = False
+    else:
+        # repaired form: the start id is parsed before the stream is stored
+        a, b = xc.find("StreamId::from_string("), xc.find("set_value(")
+        q["createParseFix"] = 0 <= a < b
+    xp = body(hc, r"pub\s+fn\s+handle_xpending\s*\([^{]*\{")
+    if xp is None:
+        problems.append("handle_xpending not found")
+        q["boundFix"] = False
+    else:
+        # repaired form: the bounds go through a parser that tells "unbounded" from "invalid" (no bare from_string on the bound text)
+        q["boundFix"] = not re.search(r"StreamId::from_string\(\s*&(start|end)_str\s*\)", xp) and bool(re.search(r"\w*bound\w*\(\s*&start_str", xp))
     # repaired form: no group / consumer name is converted lossily any more
     name_sites = re.findall(r"(?:group_name|consumer_name|let\s+consumer)\s*=\s*(?:if[^{]*\{\s*)?match[^{]*\{\s*RespFrame::BulkString\(Some\(bytes\)\)\s*=>\s*(?:Some\()?([A-Za-z_:0-9]+)", hc)
     if not name_sites:
@@ -116,6 +141,20 @@ def sids(l):
     return "|".join(sid(i) for i in l) if l else "."
 
 
+class Ids(list):
+    """the ids of the stream plus whether the key exists at all (`S ~` = no such key, `S .` = an empty stream)"""
+
+    def __init__(self, items, exists=True):
+        super().__init__(items)
+        self.exists = exists
+
+    def __eq__(self, other):
+        return list.__eq__(self, other) and getattr(other, "exists", True) == self.exists
+
+    def __ne__(self, other):
+        return not self.__eq__(other)
+
+
 class Dump:
     """One group of an answer: `G g last byid byc cons total min max`."""
 
@@ -131,7 +170,8 @@ def parse_answer(ans):
     """-> (reply text, stream ids, {g: Dump})"""
     secs = [s.strip() for s in ans.split(" ;; ")]
     reply = secs[0]
-    stream = parse_ids(secs[1].split(" ")[1])
+    stok = secs[1].split(" ")[1]
+    stream = Ids([] if stok == "~" else parse_ids(stok), stok != "~")
     groups = {}
     for s in secs[2:]:
         d = Dump(s.split(" "))
@@ -160,7 +200,10 @@ def handler_only(op):
     """input classes that exist only at command level: binary names (the typed API takes Rust strings), reads over several
     streams, and the explicit id that equals the API's own marker for `>`"""
     w = op.split(" ")
-    return w[0] == "mread" or uses_binary_name(op) or (w[0] == "read" and w[3] == MAXID)
+    if w[0] in ("mread", "bad") or uses_binary_name(op) or (w[0] == "read" and (w[3] == MAXID or w[4] == "0")):
+        return True
+    # XPENDING bounds other than `-` as start, `+` as end and complete ids are text for the handler's parser
+    return w[0] == "prange" and not (re.match(r"^(-|\d+-\d+)$", w[2]) and re.match(r"^(\+|\d+-\d+)$", w[3]))
 
 
 def op_group(op):
@@ -249,7 +292,8 @@ class Gen:
             return "setid %d %s" % (g, r.choice(["$", "0-0", sid(self.any_id(stream))]))
         if k < 16:
             return "destroy %d" % g
-        return "bad %s %d" % (r.choice(BAD_KINDS), g)
+        kinds = BAD_KINDS if (not self.clean or self.quirks.get("createParseFix")) else [k for k in BAD_KINDS if k != "create-badid"]
+        return "bad %s %d" % (r.choice(kinds), g)
 
     def handler_level(self, stream, groups):
         """input classes of the command level: reads over two streams with a failing later stream, binary (non-UTF-8) group
@@ -276,6 +320,8 @@ class Gen:
         r, clean = self.r, self.clean
         missing = [g for g in GROUPS if g not in groups]
         k = r.below(100)
+        if not getattr(stream, "exists", True) and r.chance(1, 3) and (not clean or self.quirks.get("createParseFix")):
+            return "bad create-badid %d" % r.choice(GROUPS)        # a refused CREATE … MKSTREAM on a key that does not exist
         if r.chance(1, 14):
             return self.handler_level(stream, groups)
         if missing and (k < 25 or (len(missing) == len(GROUPS) and k < 60)):
@@ -295,7 +341,7 @@ class Gen:
         if k < 27:
             return "del " + sids(self.some_ids(stream, groups, g, 2))
         if k < 52:
-            count = r.choice(["-", "-", "1", "2", "2", "3", "0"])
+            count = r.choice(["-", "-", "1", "2", "2", "3", "0"] if (not clean or self.quirks.get("countZeroFix")) else ["-", "-", "1", "2", "2", "3"])
             noack = 0 if (clean and not self.quirks.get("noackFix")) else (1 if r.chance(1, 6) else 0)
             return "read %d %d > %s %d" % (g, c, count, noack)
         if k < 55:
@@ -305,7 +351,11 @@ class Gen:
         if k < 68:
             return "ack %d %s" % (g, sids(self.some_ids(stream, groups, g)))
         if k < 77:
-            return "claim %d %d %s %d %s" % (g, c, r.choice(["0", "0", "huge"]), 1 if r.chance(1, 4) else 0, sids(self.some_ids(stream, groups, g, 3)))
+            force = 1 if r.chance(1, 3) and (not clean or self.quirks.get("forceFix")) else 0
+            ids = self.some_ids(stream, groups, g, 3)
+            if force and stream and r.chance(1, 2):
+                ids.append(r.choice(stream))            # FORCE on an entry that exists and may be pending for nobody
+            return "claim %d %d %s %d %s" % (g, c, r.choice(["0", "0", "huge"]), force, sids(ids))
         if k < 79:
             return "autoclaim %d %d %s %s %d" % (g, c, r.choice(["0", "0", "huge"]), sid(self.any_id(stream)), r.range(0, 3))
         if k < 83:
@@ -332,9 +382,16 @@ class Gen:
             form = r.below(3)
             s, e = [("-", "+"), (sid(lo), sid(hi)), (sid(lo), "+")][form]
             cf = str(c) if self.quirks.get("filterFix") and r.chance(1, 2) else "-"
+            if self.quirks.get("boundFix") and r.chance(1, 3):
+                s = r.choice([str(lo[0]), "(" + sid(lo), "-", "(" + str(lo[0]), "junk", "+"])
+                e = r.choice([str(hi[0]), "(" + sid(hi), "+", "%d-" % hi[0], "-"])
             return "prange %d %s %s %d %s" % (g, s, e, r.choice([1, 2, 10]), cf)
         s = "-" if r.chance(1, 3) else sid(a)
         e = "+" if r.chance(1, 3) else sid(b)
+        if r.chance(1, 3):
+            # bounds as text: incomplete ids, exclusive bounds, - / + in the other position, garbage
+            forms = lambda i: r.choice([str(i[0]), "(" + sid(i), "(" + str(i[0]), "+", "-", "junk", "%d-" % i[0], sid(i), "(+", "(-", "(0-0"])
+            s, e = forms(a), forms(b)
         cf = "-" if r.chance(1, 2) else str(c)
         return "prange %d %s %s %d %s" % (g, s, e, r.choice([0, 1, 2, 10]), cf)
 
@@ -407,7 +464,7 @@ class Runner:
             out["oracle"].append(("abort", "implementation process died: " + self.impl.stderr_tail[-300:]))
             self.impl.ask("reset")
             self.ask_model("reset")
-            self.prev = parse_answer("ok ;; S .")
+            self.prev = parse_answer("ok ;; S ~")
             return out
         if a == "bad-op" or b == "bad-op":
             if a != b:
@@ -443,7 +500,7 @@ class Runner:
             if before != after or p_stream != stream:
                 changed = sorted(h for h in set(before) | set(after) if before.get(h) != after.get(h))
                 out["oracle"].append(("refused-op", "`%s` was refused (%s) but changed %s: before %s / after %s" % (
-                    op, reply, "group(s) %s" % changed if changed else "the stream",
+                    op, reply, "group(s) %s" % changed if changed else ("the keyspace (the stream key exists now)" if not getattr(p_stream, "exists", True) and getattr(stream, "exists", True) else "the stream"),
                     [before.get(h) for h in changed] or sids(p_stream), [after.get(h) for h in changed] or sids(stream))))
             if w[0] in ("bad", "mread"):
                 self.prev = (reply, stream, groups)
@@ -464,7 +521,8 @@ class Runner:
             for h in set(p_groups) | set(groups):
                 if h != g and (p_groups.get(h) and p_groups[h].text) != (groups.get(h) and groups[h].text):
                     out["oracle"].append(("isolation", "operation on group %d changed group %d" % (g, h)))
-            if p_stream != stream:
+            created = w[0] == "create" and reply == "ok"       # XGROUP CREATE … MKSTREAM creates a missing key, nothing else may
+            if list(p_stream) != list(stream) or (getattr(p_stream, "exists", True) != getattr(stream, "exists", True) and not created):
                 out["oracle"].append(("isolation", "group operation changed the stream"))
         elif g is None:
             for h in set(p_groups) | set(groups):
@@ -482,7 +540,7 @@ class Runner:
             elif w[0] == "read" and w[3] == ">" and g in self.ledger:
                 floor = self.ledger[g]["floor"]
                 want = [i for i in p_stream if i > floor]
-                if w[4] != "-":
+                if w[4] not in ("-", "0"):                     # COUNT 0 = no limit
                     want = want[:int(w[4])]
                 got = parse_ids(reply)
                 if got != want:
@@ -508,6 +566,7 @@ def timed_timeline(T):
             "claim 1 2 %s 0 1-0" % t,                    # idle >= T -> moves to c2, last_delivery restarts
             "pidle 1 1-0",                               # XPENDING's idle restarted (< T/2)
             "claim 1 3 %s 0 1-0" % t,                    # immediately after c2's claim: must be REFUSED, owner stays c2
+            "claim 1 3 %s 1 1-0" % t,                    # ... with FORCE too: FORCE does not replace the idle threshold
             "claim 1 3 %s 1 2-0" % t,                    # FORCE bypasses the test (and restarts the idle time)
             "claim 1 2 %s 0 2-0" % t,                    # ... so this one is refused
             "claim 1 1 0 0 3-0",                         # min-idle 0 always passes (and restarts the idle time)
@@ -572,8 +631,8 @@ class Timed:
             for i in ids:
                 if i not in pend:
                     continue
-                if w[4] == "1" or minidle == 0:
-                    ok = True
+                if minidle == 0:
+                    ok = True                # FORCE does not replace the idle test (it only creates missing rows)
                 else:
                     lo = b - last.get(i, (0, 0))[1]
                     hi = a - last.get(i, (0, 0))[0]
@@ -650,6 +709,14 @@ def shapes_of(step, taint):
     shapes = set()
     if uses_binary_name(op):
         return ["binary-names-collide"]           # every symptom of a step that names a binary group / consumer
+    if w[0] == "claim" and w[4] == "1":
+        return ["xclaim-force-backwards"]          # FORCE: replaces the idle test / creates no row
+    if w[0] == "read" and w[4] == "0":
+        return ["xreadgroup-count-zero"]
+    if w[0] == "bad" and w[1] == "create-badid":
+        return ["refused-create-leaves-stream"] if all(k == "refused-op" and "keyspace" in d for k, d in step["oracle"]) else []
+    if w[0] == "prange" and handler_only(op):
+        return ["xpending-unparsed-bound-is-unbounded"] if all(k == "step" for k, d in step["oracle"]) else []
     if w[0] == "mread":
         return ["multi-stream-partial-delivery"] if all(k == "refused-op" and "changed" in d for k, d in step["oracle"]) else []
     for kind, det in step["oracle"]:
@@ -675,7 +742,8 @@ def shapes_of(step, taint):
                 return []
         elif kind == "exactly-once":
             t = taint.get(g, set())
-            if t & {"start-ignored", "noack-no-advance", "explicit-id-rereads-stream", "multi-stream-partial-delivery", "explicit-max-id-read-as-gt"}:
+            if t & {"start-ignored", "noack-no-advance", "explicit-id-rereads-stream", "multi-stream-partial-delivery", "explicit-max-id-read-as-gt",
+                    "xreadgroup-count-zero"}:
                 shapes.add("consequence")
             else:
                 return []
@@ -706,6 +774,8 @@ def first_failures(steps):
 
 # ------------------------------------------------------------------ the check
 CORPUS = {
+    "xclaim-force-backwards": ["add 1-0", "add 2-0", "add 3-0", "create 1 0-0", "read 1 1 > 1 0", "claim 1 2 huge 0 1-0", "claim 1 2 huge 1 1-0",
+                               "claim 1 3 0 1 3-0|9-9", "pending 1"],
     # witnesses of the Lean witness lemmas / proposed known findings (replayed first, every run)
     "start-ignored": ["add 1-0", "add 2-0", "create 1 $", "read 1 1 > - 0"],
     "noack-no-advance": ["add 1-0", "create 1 0-0", "read 1 1 > - 1", "read 1 2 > - 1"],
@@ -715,6 +785,11 @@ CORPUS = {
     "xpending-consumer-filter-ignores-range": ["add 1-0", "add 2-0", "create 1 0-0", "read 1 1 > - 0", "prange 1 2-0 2-0 10 1"],
 }
 CORPUS_H = {
+    "xreadgroup-count-zero": ["add 1-0", "add 2-0", "create 1 0-0", "read 1 1 > 0 0", "pending 1", "read 1 1 > - 0", "read 1 1 0-0 0 0"],
+    "refused-create-leaves-stream": ["bad create-badid 1", "bad create-badid 2", "create 1 $"],
+    "xpending-unparsed-bound-is-unbounded": ["add 1-0", "add 2-0", "add 2-1", "add 3-0", "create 1 0-0", "read 1 1 > 3 0", "read 1 2 > - 0",
+                                             "prange 1 2 2 10 -", "prange 1 3 + 10 -", "prange 1 (2-0 + 10 -", "prange 1 - (3-0 10 -", "prange 1 + + 10 -",
+                                             "prange 1 3 + 10 1", "prange 1 junk + 10 -", "prange 1 - 7- 10 -"],
     # witnesses that exist only at command level (run through the handlers)
     "multi-stream-partial-delivery": ["add 1-0", "add 2-0", "create 1 0-0", "mread 1 1 - 0 nogroup", "read 1 2 > - 0"],
     "binary-names-collide": ["add 1-0", "create 100 0-0", "create 101 0-0", "read 100 100 > - 0", "read 101 101 > - 0", "pending 101"],
@@ -737,7 +812,9 @@ def quirk_of_shape(shape):
     return {"start-ignored": "startFix", "noack-no-advance": "noackFix", "xpending-reversed-range-panics": "rangeFix",
             "explicit-id-rereads-stream": "histFix", "redelivery-breaks-accounting": "redeliverFix",
             "xpending-consumer-filter-ignores-range": "filterFix", "multi-stream-partial-delivery": "multiFix",
-            "binary-names-collide": "nameFix", "explicit-max-id-read-as-gt": "maxIdFix"}.get(shape)
+            "binary-names-collide": "nameFix", "explicit-max-id-read-as-gt": "maxIdFix", "xclaim-force-backwards": "forceFix",
+            "xreadgroup-count-zero": "countZeroFix", "refused-create-leaves-stream": "createParseFix",
+            "xpending-unparsed-bound-is-unbounded": "boundFix"}.get(shape)
 
 
 def shrink_history(runner, ops, still_fails):
